@@ -287,7 +287,8 @@ def py_case_arm_counted(node, d, line):
 # docs/nesting-linter.md, "Statements That Increase Depth"
 TS_CTL = ("if_statement", "for_statement", "for_in_statement", "while_statement", "do_statement", "try_statement",
           "switch_statement", "with_statement")
-RS_CTL = ("if_expression", "match_expression", "loop_expression", "while_expression", "for_expression", "closure_expression")
+RS_CTL = ("if_expression", "match_expression", "loop_expression", "while_expression", "for_expression", "closure_expression",
+          "async_block")
 
 
 def ts_is_ctl(n):
@@ -295,10 +296,9 @@ def ts_is_ctl(n):
     return n.type in TS_CTL
 
 
-def rs_is_ctl(n, doc):
-    """Rust: if / match / loop / while / for expressions and closures -- and, in the documentation only, `async` blocks
-    (known finding C01-rust-async-block-not-counted)."""
-    return n.type in RS_CTL or (doc and n.type == "async_block")
+def rs_is_ctl(n):
+    """Rust: if / match / loop / while / for expressions, closures and `async` blocks."""
+    return n.type in RS_CTL
 
 
 # level(x) = 1 (function body) + number of control structures enclosing x; t_*(…, d) = the largest level of a node in
@@ -313,14 +313,14 @@ def ts_seq_depth(s: SeqOf(TSNode), d: Int) -> Int:
     return imax(ts_node_depth(s[0], d), ts_seq_depth(s[1:], d))
 
 
-def rs_node_depth(n: TSNode, d: Int, doc: Bool) -> Int:
-    return imax(d, rs_seq_depth(n.children, d + 1 if rs_is_ctl(n, doc) else d, doc))
+def rs_node_depth(n: TSNode, d: Int) -> Int:
+    return imax(d, rs_seq_depth(n.children, d + 1 if rs_is_ctl(n) else d))
 
 
-def rs_seq_depth(s: SeqOf(TSNode), d: Int, doc: Bool) -> Int:
+def rs_seq_depth(s: SeqOf(TSNode), d: Int) -> Int:
     if len(s) == 0:
         return 0
-    return imax(rs_node_depth(s[0], d, doc), rs_seq_depth(s[1:], d, doc))
+    return imax(rs_node_depth(s[0], d), rs_seq_depth(s[1:], d))
 
 
 def first_child(s: SeqOf(TSNode), k: Str) -> TSNode:
@@ -337,10 +337,10 @@ def d_ts(func_node):
         else imax(1, ts_seq_depth(first_child(func_node.children, "statement_block").children, 1))
 
 
-def d_rs(func_node, doc):
-    """Depth of a Rust function (doc=True: over the documented constructs, doc=False: over NESTING_NODE_TYPES)."""
+def d_rs(func_node):
+    """Documented depth of a Rust function: 1 for the body, more if listed constructs enclose statements."""
     return 1 if first_child(func_node.children, "block") is None \
-        else imax(1, rs_seq_depth(first_child(func_node.children, "block").children, 1, doc))
+        else imax(1, rs_seq_depth(first_child(func_node.children, "block").children, 1))
 
 
 def ts_raw_depth(func_node):
@@ -351,7 +351,7 @@ def ts_raw_depth(func_node):
 
 def rs_raw_depth(func_node):
     return 0 if first_child(func_node.children, "block") is None \
-        else imax(0, rs_seq_depth(first_child(func_node.children, "block").children, 1, False))
+        else imax(0, rs_seq_depth(first_child(func_node.children, "block").children, 1))
 
 
 # ====================================================================================== TypeScript analyzer
@@ -462,12 +462,12 @@ class RsVisitNode:
         return node is not None and max_depth >= 0 and current_depth >= 0
 
     def ensures_running_maximum(node, current_depth, max_depth, old):
-        return max_depth == imax(old.max_depth, rs_node_depth(node, current_depth, False))
+        return max_depth == imax(old.max_depth, rs_node_depth(node, current_depth))
 
     def inv0(node, current_depth, new_depth, max_depth, old, rest):
         return max_depth >= 0 and new_depth >= 0 and \
-            imax(imax(old.max_depth, current_depth), rs_seq_depth(node.children, new_depth, False)) == \
-            imax(max_depth, rs_seq_depth(rest, new_depth, False))
+            imax(imax(old.max_depth, current_depth), rs_seq_depth(node.children, new_depth)) == \
+            imax(max_depth, rs_seq_depth(rest, new_depth))
 
 
 @opaque
@@ -492,7 +492,7 @@ class RsCalculateMaxDepth:
 
     def inv1(self, func_node, body_node, max_depth, rest):
         return body_node is not None and body_node == first_child(func_node.children, "block") and max_depth >= 0 and \
-            imax(0, rs_seq_depth(body_node.children, 1, False)) == imax(max_depth, rs_seq_depth(rest, 1, False))
+            imax(0, rs_seq_depth(body_node.children, 1)) == imax(max_depth, rs_seq_depth(rest, 1))
 
 
 @contract(RS + "RustNestingAnalyzer.calculate_max_depth~documented", props=["C01"], types=RS_CALC_TYPES, returns=TupleOf(Int, Int))
@@ -501,24 +501,21 @@ class RsCalculateMaxDepthDocumented:
         return func_node is not None
 
     def ensures_documented_depth(self, func_node, result):
-        # docs list `async` blocks among the Rust nesting constructs (expected to fail: C01-rust-async-block-not-counted)
-        return imax(result[0], 1) == d_rs(func_node, True)
-
-    def ensures_code_depth(self, func_node, result):
-        # finding-adjusted: the documented depth over every listed construct except `async` blocks
-        return imax(result[0], 1) == d_rs(func_node, False)
+        # property text: 1 for the function body plus one per enclosing construct of the documented list (incl. `async`
+        # blocks; fixed: C01-rust-async-block-not-counted)
+        return imax(result[0], 1) == d_rs(func_node)
 
     def inv1(self, func_node, body_node, max_depth, rest):
         return body_node is not None and body_node == first_child(func_node.children, "block") and max_depth >= 0 and \
-            imax(0, rs_seq_depth(body_node.children, 1, False)) == imax(max_depth, rs_seq_depth(rest, 1, False))
+            imax(0, rs_seq_depth(body_node.children, 1)) == imax(max_depth, rs_seq_depth(rest, 1))
 
 
-@lemma(props=["C01"], types=dict(func_node=TSNode), name="rust-raw-depth-is-code-depth")
-def rs_raw_is_code_depth(func_node):
+@lemma(props=["C01"], types=dict(func_node=TSNode), name="rust-raw-depth-is-documented-depth")
+def rs_raw_is_documented(func_node):
     if func_node is None:
         return True
     reveal(rs_raw, func_node)
-    return imax(rs_raw(func_node), 1) == d_rs(func_node, False) and rs_raw(func_node) >= 0
+    return imax(rs_raw(func_node), 1) == d_rs(func_node) and rs_raw(func_node) >= 0
 
 
 # ====================================================================================== function collection
@@ -959,8 +956,7 @@ class ProcessTypescriptFunctions:
 
 
 def rs_depth(func_node):
-    """Depth of a Rust function over the constructs the analyzer counts (= d_rs(func_node, False), lemma
-    rust-raw-depth-is-code-depth; `async` blocks: C01-rust-async-block-not-counted)."""
+    """The documented depth of a Rust function (= d_rs(func_node), lemma rust-raw-depth-is-documented-depth)."""
     return imax(rs_raw(func_node), 1)
 
 
@@ -983,7 +979,7 @@ class ProcessRustFunctions:
     def requires(self, functions, config, context):
         return config.max_nesting_depth >= 1 and self._violation_builder.rule_id == RULE_ID and fn_nodes_ok(functions)
 
-    def witness_code_verdicts():
+    def witness_documented_verdicts():
         # fn f() { if x {} }: depth 2 EQUALS the limit 2: must not be reported (strict >)
         return {"self": {"_violation_builder": {"rule_id": RULE_ID}, "_python_analyzer": {}, "_typescript_analyzer": {},
                          "_rust_analyzer": {"tree_sitter_available": True}},
@@ -995,9 +991,8 @@ class ProcessRustFunctions:
                 "config": {"max_nesting_depth": 2, "enabled": True},
                 "context": {"file_path": None, "file_content": "fn f() {\n  if x {}\n}\n", "language": "rust"}}
 
-    def ensures_code_verdicts(self, functions, config, context, result):
-        # the documented decision procedure over the constructs the analyzer counts (async blocks: see
-        # C01-rust-async-block-not-counted on calculate_max_depth)
+    def ensures_documented_verdicts(self, functions, config, context, result):
+        # property text: reported iff the documented depth exceeds max_nesting_depth; one violation per function
         return result == rs_verdicts(functions, config.max_nesting_depth, RULE_ID, context)
 
     def inv0(self, functions, config, context, violations, old, rest):
@@ -1061,7 +1056,7 @@ class CheckRust:
         return config.max_nesting_depth >= 1 and self._violation_builder.rule_id == RULE_ID and \
             implies(rust_root(content_of(context)) is not None, fn_nodes_ok(rs_functions(rust_root(content_of(context)))))
 
-    def ensures_code_verdicts(self, context, config, result):
+    def ensures_documented_verdicts(self, context, config, result):
         return result == ([] if rust_root(content_of(context)) is None else
                           rs_verdicts(rs_functions(rust_root(content_of(context))), config.max_nesting_depth, RULE_ID, context))
 
@@ -1115,10 +1110,10 @@ def flip_rs(rule, fn, k, context):
         return True
     a = call(P_RS, rule, [fn], mk(NestingConfigT, max_nesting_depth=k, enabled=True), context)
     b = call(P_RS, rule, [fn], mk(NestingConfigT, max_nesting_depth=k + 1, enabled=True), context)
-    use(rs_raw_is_code_depth, fn[0])
-    return (len(a) <= 1 and len(b) <= 1 and (len(a) != len(b)) == (d_rs(fn[0], False) == k + 1)
+    use(rs_raw_is_documented, fn[0])
+    return (len(a) <= 1 and len(b) <= 1 and (len(a) != len(b)) == (d_rs(fn[0]) == k + 1)
             and implies(len(a) == 1, a[0].line == fn[0].start_point[0] + 1
-                        and a[0].message == depth_message(fn[1], d_rs(fn[0], False))))
+                        and a[0].message == depth_message(fn[1], d_rs(fn[0]))))
 
 
 @lemma(props=["C01"], types=dict(rule=RuleT, fn=PyNode, analyzer=PyAnalyzerT, k=Int, context=CtxT), name="flip-python")
@@ -1145,9 +1140,9 @@ def wrap_ts(w, x, d):
 
 @lemma(props=["C01"], types=dict(w=TSNode, x=TSNode, d=Int), name="wrap-rust")
 def wrap_rs(w, x, d):
-    if w is None or x is None or d < 1 or not rs_is_ctl(w, True) or x.children != [] or w.children != [x]:
+    if w is None or x is None or d < 1 or not rs_is_ctl(w) or x.children != [] or w.children != [x]:
         return True
-    return rs_node_depth(x, d, True) == d and rs_node_depth(w, d, True) == d + 1
+    return rs_node_depth(x, d) == d and rs_node_depth(w, d) == d + 1
 
 
 @lemma(props=["C01"], types=dict(w=PyNode, x=PyNode, d=Int), name="wrap-python")
@@ -1193,7 +1188,7 @@ def cross_base(xp, xt, xr, d):
         return True
     if isinstance(xp, ast.If) or py_ctl_doc(xp) or len(py_children(xp)) != 0 or len(xt.children) != 0 or len(xr.children) != 0:
         return True
-    return lvl_py(xp, d) == d + 1 and ts_node_depth(xt, d + 1) == d + 1 and rs_node_depth(xr, d + 1, True) == d + 1
+    return lvl_py(xp, d) == d + 1 and ts_node_depth(xt, d + 1) == d + 1 and rs_node_depth(xr, d + 1) == d + 1
 
 
 @lemma(props=["C01"], types=dict(wp=PyNode, xp=PyNode, wt=TSNode, xt=TSNode, wr=TSNode, xr=TSNode, d=Int),
@@ -1206,11 +1201,11 @@ def cross_step(wp, xp, wt, xt, wr, xr, d):
         return True
     if not (py_ctl_doc(wp) and not isinstance(wp, ast.If) and len(py_children(wp)) == 1 and py_children(wp)[0] == xp
             and ts_is_ctl(wt) and len(wt.children) == 1 and wt.children[0] == xt
-            and rs_is_ctl(wr, True) and len(wr.children) == 1 and wr.children[0] == xr):
+            and rs_is_ctl(wr) and len(wr.children) == 1 and wr.children[0] == xr):
         return True
-    if not (lvl_py(xp, d + 1) == ts_node_depth(xt, d + 2) and ts_node_depth(xt, d + 2) == rs_node_depth(xr, d + 2, True)):
+    if not (lvl_py(xp, d + 1) == ts_node_depth(xt, d + 2) and ts_node_depth(xt, d + 2) == rs_node_depth(xr, d + 2)):
         return True
-    return lvl_py(wp, d) == ts_node_depth(wt, d + 1) and ts_node_depth(wt, d + 1) == rs_node_depth(wr, d + 1, True)
+    return lvl_py(wp, d) == ts_node_depth(wt, d + 1) and ts_node_depth(wt, d + 1) == rs_node_depth(wr, d + 1)
 
 
 # ---- configuration (contracts on NestingConfig live in c05_config.py, props C05 + C01) --------------------------------
